@@ -1064,3 +1064,12 @@ package readline
 //@   requires fullok(rl) && rl.completer.keymap == rl.Keymap
 //@   at_call Sources).Accept [menu-interrupt-does-not-end-the-call] len(old(rl.completer.selected.Value)) == 0 && !old(rl.completer.autoForce) && old(rl.Keymap.local) != "isearch"
 //@   at_call Sources).Accept [interrupt-is-an-error-and-records-nothing] !a1 && !a2 && a3 != nil
+
+// init (start of every Readline call). C06: "whenever Readline waits for input ... on a character in Vi command
+// mode": the buffer may start non-empty (a line held by accept-and-hold, or inferred from the history), so the
+// cursor is normalised for the Vi command keymap before the first wait. Only this is claimed here.
+//@ func (*Shell).init
+//@   props C06
+//@   assume_nopanic the components' own resets (history, hints, completion, display) are outside this contract
+//@   requires fullok0(rl)
+//@   ensures [vi-command-cursor-on-a-character] rl.Keymap.main == "vi-command" ==> core.ccmd(rl.cursor)
